@@ -97,7 +97,11 @@ def make_any(rng: random.Random):
         d = 2 if kind.startswith("2d") else rng.choice([3, 4])
         if kind == "2d_adaptive":
             rows = np.array([[rng.uniform(-3, 3), rng.uniform(0, 5)] for _ in range(max(n, 1))])
-            h = physt.h(rows, "fixed_width", bin_width=[0.5, 1.0], adaptive=True, axis_names=["u", "v"])
+            if rng.random() < 0.25:
+                # still empty (no bins yet on any axis): a document as well
+                h = physt.h(None, "fixed_width", bin_width=[0.5, 1.0], adaptive=True, dim=rng.choice([2, 3]))
+            else:
+                h = physt.h(rows, "fixed_width", bin_width=[0.5, 1.0], adaptive=True, axis_names=["u", "v"])
         else:
             axes = []
             specs = []
@@ -114,6 +118,13 @@ def make_any(rng: random.Random):
             elif rng.random() < 0.5:
                 kw["dtype"] = rng.choice(["int32", "float32", "int16", "float64"])
             h = physt.h(rows, specs, axis_names=[f"ax{i}" for i in range(d)], name=rng.choice([None, "nd"]), **kw)
+            if rng.random() < 0.12 and h.total > 0:
+                # missed weight reading "unknown" (NaN) after array arithmetic under free arithmetics
+                from physt.config import config as _cfg
+
+                with _cfg.enable_free_arithmetics():
+                    h = h * np.full(h.shape, 2)
+                flags["missed"] = True
     else:
         pts = np.array([[rng.uniform(-3, 3) for _ in range(3)] for _ in range(max(n, 3))])
         with warnings.catch_warnings():
